@@ -224,6 +224,51 @@ CLAIMED["C16"] = dict(
     technique="Lean 4 verified checker over translated wrappers (decide +kernel) + enumeration correspondence",
     engine="Wrapper", ref="5 C16")
 
+CLAIMED["C19"] = dict(
+    text="Proof (Lean 4): a certificate checker for abstract x86-64 instruction records (Impl/X86Abs.lean: GPR values as "
+         "entry-value/stack-offset/unknown, stack pointer, save slots, `and rsp,-64` frames, calls through clobber "
+         "summaries) is proved sound against a nondeterministic small-step semantics (checkFn_sound, 1270 lines): if "
+         "checkFn accepts a function then on every path from its entry with any registers and memory no forbidden "
+         "record (std, ldmxcsr, fldcw, fninit, fxrstor, xrstor, emms, popf, x87/MMX ...) or unsupported record is "
+         "reached, every push/call/tracked store lands strictly below the entry stack pointer, and at every exit "
+         "(ret, tail jump, dispatch stub) rsp and every register outside the clobber summary hold their entry values. "
+         "T-route: tools/gen_x86abs.py regenerates records + certificates for all 799 functions of all 230 objects of "
+         "the library built from the current tree (quick: default build; thorough: also FIPS) and the kernel "
+         "re-evaluates checkObj per object (decide +kernel); Props/C19.lean lifts this to: every function that is not "
+         "one of the 16 private-convention kernels restores rsp, rbx, rbp, r12-r15 (theorem c19). Dynamic tie: "
+         "harness/drv_abi.c calls 390 entry points through a trampoline comparing the callee-saved registers, DF, "
+         "MXCSR, the x87 control word and a canary above the frame; tools/insnform.py validates the instruction "
+         "table's register write-sets by executing every instruction form in use in isolation.",
+    note="Trusted: Lean kernel + standard axioms; objdump decoding, translator and instruction table (x86tab.py; unknown "
+         "=> unsupported => rejected); A-frame assumption (stores through non-stack-derived addresses do not hit save "
+         "slots; 28 functions index local arrays as [rsp+reg+k]); libc externals obey SysV; no wrap of stack arithmetic; "
+         "choice of the private-convention class by the translator. DF/MXCSR/x87 CW: proved never written (no writer "
+         "reachable), DF clear on entry is the ABI's assumption.",
+    technique="Lean 4 verified certificate checker over translated disassembly (decide +kernel per object) + trampoline correspondence",
+    engine="X86Abs", ref="4.2, 5 C19")
+CLAIMED["C18"] = dict(
+    text="Proof (Lean 4) of the two static clauses, correspondence for the dynamic one. (1) No writable static storage "
+         "but bindings and verdict: over the X86Abs model of all 230 objects every instruction with a static (rip-"
+         "relative) destination is `<e>_dispatch_init` storing to `<e>_dispatched` or one of the two owners of "
+         "self_test_status (c18_static_stores; statics_ok/written_ok/counts by decide +kernel on the regenerated "
+         "tables: 66 stores, 65 written symbols of 1076 in writable sections). (2) Racing first calls: for every "
+         "regenerated resolver (pure function of the CPU configuration, stub shape call;jmp[cell] re-checked) and any "
+         "number of threads under any interleaving the cell only ever holds the init stub or the one target, every "
+         "thread runs that target, nobody blocks, each thread needs at most 4 own steps (Impl/BindRace.lean, "
+         "c18_bind_race, c18_bind_progress). (3) Non-interference on distinct objects: harness/drv_threads.c - every "
+         "round a fresh process in which 2..64 threads make their first use of the library simultaneously, each "
+         "running a workload over all public families on its own objects; every thread's result digest equals its "
+         "solo run; all 209 writable input sections of library objects (from the link map) are snapshotted before/"
+         "after and may differ only inside dispatch cells; every cell is bound to the same target in all runs.",
+    note="Trusted: Lean kernel + standard axioms; translators; atomicity of the 8-byte cell access (cells are 4-byte "
+         "aligned by their section - candidate weakness, not demonstrable: stub and targets share the high dword; the "
+         "harness checks that no cell of its link straddles a cache line). Writes through pointers to static data are "
+         "outside clause (1) (21 writable-section symbols have their address taken, all constant tables) and are "
+         "covered by the snapshots only. Clause (3) is correspondence, not proof: the models are pure functions of "
+         "the objects passed, so non-interference is by construction there.",
+    technique="Lean 4 verified checker over translated disassembly + protocol proof (racing binds) + threaded correspondence",
+    engine="X86Abs", ref="4.2, 5 C18")
+
 REASON_TODO = "check not built yet in this session (work in progress, see DESIGN.md status section)"
 
 props = [json.loads(l) for l in open(os.path.join(V, "properties.jsonl"))]
@@ -272,6 +317,8 @@ m = {
          "kind_free_text": "mini-x86 interpreter + exact symbolic execution + verified path checker; tools/gen_dispatch.py translator; harness/drv_dispatch.c under the hook"},
         {"name": "AES", "path": "lean/IsalVerif/Spec/Aes.lean", "serves_properties": ["C02", "C03", "C04", "C07"],
          "kind_free_text": "executable standards (FIPS-197, SP 800-38D, IEEE 1619, SP 800-38A) + GcmStream context model; harness/drv_aes.c"},
+        {"name": "X86Abs", "path": "lean/IsalVerif/Impl/X86Abs.lean", "serves_properties": ["C19", "C18"],
+         "kind_free_text": "abstract x86-64 records + certificate checker proved sound (Lemmas/X86AbsSound.lean); tools/gen_x86abs.py translator over every object; Impl/BindRace.lean (racing dispatch binds); harness/drv_abi.c, harness/drv_threads.c"},
         {"name": "Wrapper", "path": "lean/IsalVerif/Impl/Wrapper.lean", "serves_properties": ["C13", "C16"],
          "kind_free_text": "statement language + run semantics of the isal_ wrappers, verified checkers (Impl/WrapperC13.lean, WrapperC16.lean), documented domain Spec/ApiDomain.lean; tools/gen_wrappers.py translator (clang AST); harness/drv_api.c"},
         {"name": "SelfTest", "path": "lean/IsalVerif/Impl/SelfTest.lean", "serves_properties": ["C17"],
